@@ -239,7 +239,7 @@ class HuaweiFormatter(BlockExitFormatter):
         # например на VRP V100R006C00SPC500 + V100R006SPH003
         policy_end_blocks = ("end-list", "endif", "end-filter")
         tree = self.split_remove_spaces(text)
-        tree[:] = filter(lambda x: not str(x).strip().startswith(policy_end_blocks), tree)
+        tree[:] = filter(lambda x: str(x).strip() not in policy_end_blocks, tree)
         return tree
 
     def block_exit(self, context: Optional[FormatterContext]):
@@ -371,7 +371,7 @@ class AsrFormatter(BlockExitFormatter):
     def split(self, text):
         policy_end_blocks = ("end-set", "endif", "end-policy")
         tree = self.split_remove_spaces(text)
-        tree[:] = filter(lambda x: not x.endswith(policy_end_blocks), tree)
+        tree[:] = filter(lambda x: x.strip() not in policy_end_blocks, tree)
         return tree
 
     def block_exit(self, context: Optional[FormatterContext]) -> str:
